@@ -6,12 +6,14 @@ P = "paramiko.pkey.PKey."
 TARGETS = ["paramiko.pkey._unpad_openssh", P + "_read_private_key", P + "_read_private_key_openssh"]
 TARGETS += [(P + "_uint32_cstruct_unpack", "format-" + f, pkeyfile.own_cstruct(f)) for f in ("sssur", "ss", "su", "uusr")]
 TARGETS += ["paramiko.ed25519key.Ed25519Key.__init__::part[parse-key-file]"]
-REPLAY = {"*": "c37.replay_keyfiles"}
+TARGETS += ["paramiko.rsakey.RSAKey._decode_key", (P + "_read_private_key_file", "text-mode-read", pkeyfile.own_read_file())]
+REPLAY = {"*": "c37.replay_keyfiles", "_decode_key": "c37.decode_wrong_material", "_read_private_key_file": "c37.decode_wrong_material"}
 MAX_PATHS = 20000
 
 
 def setup(E):
     pkeyfile.declare_ed25519(E)
+    pkeyfile.declare_decode(E)
 
 
 CLAIMED = True
@@ -22,8 +24,11 @@ LEVEL_TEXT = ("Proof of exceptional postconditions on the real AST, for every by
               "subscripts, no struct.error, and the ValueError / binascii.Error / UnicodeDecodeError that bcrypt, the cipher "
               "context, base64 and text decoding raise on malformed input are all converted; Ed25519Key's constructor "
               "(statement-range fragment around its parser call) converts the parser's internal AssertionError / TypeError / "
-              "ValueError / UnicodeDecodeError into SSHException.")
-LEVEL_NOTE = ("Library exception classes are assumed from probing (bcrypt.kdf: ValueError for rounds < 1 or empty salt / "
+              "ValueError / UnicodeDecodeError into SSHException. RSAKey._decode_key turns numbers that do not fit together (the library's ValueError, a zero divisor) "
+              "and a key of another type inside the block into SSHException; PKey._read_private_key_file turns the text-mode read's "
+              "UnicodeDecodeError into SSHException.")
+LEVEL_NOTE = ("ECDSAKey._decode_key's type check (fix f5d5686) is covered by the native battery only (decode_wrong_material), not by "
+              "an obligation. Library exception classes are assumed from probing (bcrypt.kdf: ValueError for rounds < 1 or empty salt / "
               "password; CBC finalize: ValueError for a length that is not a multiple of 16; base64: binascii.Error). "
               "Ed25519Key._parse_signing_key_data's own raise set is an assumed contract (its loops append to a local list of "
               "unbounded length, outside the engine's subset), replayed natively with crafted files. Not decided: the "
